@@ -45,7 +45,8 @@ def oracle(p):
                 if parts[0][0] == 2:
                     V('receive_data raised a non-protocol exception for a header block', {'outcome': parts[0]})
                 elif not ok_spec or not decodable:
-                    if parts[0][0] == 0:
+                    # "delivered" = a header-carrying event for that stream came out (a block answered with RST_STREAM or ignored was not delivered)
+                    if parts[0][0] == 0 and any(ev[0] in (1, 2, 3, 4, 12) and (ev[1] == rf[1] or (ev[0] == 12 and ev[2] == rf[1])) for ev in parts[0][1]):
                         V('a header block that violates RFC 7540 8.1.2 was delivered', {'kind': kind, 'headers': [[n.decode('latin1'), v.decode('latin1')] for n, v in hs]})
                     elif _conn.err_name(parts) != 'ProtocolError' or parts[0][2] != 1:
                         # other ProtocolError subclasses come from rules outside 8.1.2 (stream state, content-length ...): not judged here
